@@ -22,8 +22,8 @@ ASSUMPTIONS = ["the recursive-descent parser (match_op / match_value / match_inc
 
 def run(ctx):
     thorough, seed = ctx["thorough"], ctx["seed"]
-    r = frontfuzz.check(seed, 40000 if thorough else 4000)
-    lx = lexer.check(seed + 3, 60000 if thorough else 6000)
+    r = frontfuzz.check(seed, 150000 if thorough else 4000)
+    lx = lexer.check(seed + 3, 300000 if thorough else 6000)
     r["violations"] += lx["violations"]
     r["disagreements"] += lx["disagreements"]
     grid, items = chk.check_grid(False, seed)
